@@ -122,7 +122,7 @@ func (k *c03client) judge(c *Check, scenario string) {
 }
 
 func runC03(c *Check, rng *rand.Rand) {
-	c.Rule = "chaos episodes on a topology with an unowned slot range and a listed node that refuses connections: concurrent clients pipeline GET/MGET against gated backends while (P) multi-key requests fail routing after some fragments were queued and other clients' requests follow immediately, (O) a fragment reply above the size limit completes a split request while its sibling is outstanding, (D) clients abort with requests in flight and new clients connect at once, (K) backend connections are killed and re-dialled, (T, timeout=300ms) requests time out and their replies arrive late; then all gates open in random order. Every value the fake cluster returns names the connection and request it was produced for; oracle: a client only ever receives values of its own connection, in request order (exact position when reply count equals request count); proxy-generated errors carry no token and are always acceptable; distinct = (scenario, clients, shape)"
+	c.Rule = "chaos episodes on a topology with an unowned slot range and a listed node that refuses connections: concurrent clients pipeline GET/MGET against gated backends while (P) multi-key requests fail routing after some fragments were queued and other clients' requests follow immediately, (O) a fragment reply above the size limit completes a split request while its sibling is outstanding, (D) clients abort with requests in flight and new clients connect at once, (K) backend connections are killed and re-dialled, (T, timeout=300ms) requests time out and their replies arrive late; (a third environment runs K/D/P with a password and replicas, every re-dialled backend connection starting with a one- or two-step handshake answered byte by byte); then all gates open in random order. Every value the fake cluster returns names the connection and request it was produced for; oracle: a client only ever receives values of its own connection, in request order (exact position when reply count equals request count); proxy-generated errors carry no token and are always acceptable; distinct = (scenario, clients, shape)"
 	c.Assumptions = []string{"token attribution only; whether an error was due, and reply counts, are other properties' subject"}
 	var wg sync.WaitGroup
 	run := func(timeout int, scen []string, seed int64, mode string) {
@@ -143,6 +143,7 @@ func runC03(c *Check, rng *rand.Rand) {
 	}
 	run(0, []string{"P", "O", "D", "K", "O", "P"}, c.Seed*10+1, "")
 	run(300, []string{"T", "P", "T"}, c.Seed*10+2, "")
+	run(0, []string{"K", "D", "K", "P"}, c.Seed*10+4, "hs")
 	if c.Thorough() {
 		run(0, []string{"P", "D", "K", "P"}, c.Seed*10+3, "race")
 	}
@@ -152,8 +153,16 @@ func runC03(c *Check, rng *rand.Rand) {
 
 func c03env(c *Check, rng *rand.Rand, timeout int, scen []string, mode string) {
 	var gapLo, gapHi int
-	env, err := NewEnv(EnvOpt{Masters: 6, Cfg: ProxyCfg{Timeout: timeout, MsgMax: 65536}, Mode: mode, Topo: func(cl *Cluster) *Topo {
-		t := EvenTopo(cl, 6, 0)
+	// mode "hs": a password and one replica per master, so that every backend connection
+	// the proxy (re-)dials starts with a handshake of one (master: AUTH) or two (replica:
+	// AUTH, READONLY) steps whose replies the nodes write byte by byte
+	hs := mode == "hs"
+	replicas, password := 0, ""
+	if hs {
+		mode, replicas, password = "", 1, "pw03"
+	}
+	env, err := NewEnv(EnvOpt{Masters: 6, Replicas: replicas, Cfg: ProxyCfg{Timeout: timeout, MsgMax: 65536, Password: password}, Mode: mode, Topo: func(cl *Cluster) *Topo {
+		t := EvenTopo(cl, 6, replicas)
 		// an unowned range at the end of master 5's slots
 		r := t.Nodes[5].Slots[0]
 		gapLo, gapHi = r[1]-300, r[1]
@@ -164,6 +173,9 @@ func c03env(c *Check, rng *rand.Rand, timeout int, scen []string, mode string) {
 	defer env.Close()
 	script := NewScript()
 	env.Cl.SetHandler(script.Handler)
+	if hs {
+		env.Cl.HandshakeMode = "split"
+	}
 	// master 4 is listed but refuses connections from now on
 	down := env.T.Nodes[4]
 	down.Node.SetDown(true)
@@ -302,6 +314,14 @@ func c03env(c *Check, rng *rand.Rand, timeout int, scen []string, mode string) {
 			env.Barrier()
 			victim := env.Cl.Nodes[rng.Intn(4)]
 			victim.KillConns()
+			if hs {
+				// the replicas' connections as well (node 4 and its replica aside)
+				for i := 0; i < 2; i++ {
+					if v := env.Cl.Nodes[6+rng.Intn(4)]; v != nil {
+						v.KillConns()
+					}
+				}
+			}
 			env.Barrier()
 			for _, a := range clients {
 				k := a.get(goodSlot())
